@@ -125,9 +125,12 @@ def sync_async_twins(chk, fx, rule, names):
 
     def call_sig(hh):
         c_ = collections.Counter()
-        for cal, x in H.calls(hh["body"]):
-            if not cal:
+        for x, anc in H.walk_anc(hh["body"]):
+            if H.kind(x) not in ("call", "mcall"):
                 continue
+            cal = H.callee(x)
+            if not cal or re.search(r"tracing|log::|format_args|fmt::", " ".join([H.mac(x), cal] + [H.mac(a) for a in anc if H.is_node(a)])):
+                continue  # logging (and what is computed only for a log line) added to one twin only is not drift
             nm = re.sub(r"_async$", "", cal.split("::")[-1])
             if _TWIN_IGN.search(nm) or _TWIN_IGN.search(cal.split("::")[-2] if "::" in cal else ""):
                 continue
